@@ -1,3 +1,4 @@
+#pragma GCC optimize("O0")  // reads of members of destroyed op-states must really go to the poisoned storage
 // K1 driver for the concurrent half of C13, unit type_erase: the completion / cancellation election of
 // the next-operation of the real unifex::type_erase<int>(source) (include/unifex/type_erased_stream.hpp:
 // next_op_base::refCount_, next_sender::_op::type::{stopCallback_, request_stop}, _next_receiver) over the
@@ -233,7 +234,7 @@ int main(int argc, char** argv) {
     bool won = false, fwd_set = false, fwd_end = false;   // this round: callback took a reference / forwarded stop
     int won_tid = -1, completions = 0, last_src_v = -1, src_starts = 0;
     char src_kind = '?';          // how the source's next() of this round completed
-    bool src_sub_last = false, cb_sub_last = false;
+    bool src_sub_last = false, cb_sub_last = false, src_sub_seen = false, cb_sub_seen = false;
     for (auto& e : r.trace) {
       int tid = std::atoi(e.c_str() + 1);
       auto sp = e.find(' ');
@@ -246,7 +247,7 @@ int main(int argc, char** argv) {
         if (open || op_alive) return "NEXT: next() started before the previous one completed";
         if (saw_end) return "NEXT: next() started after done / error";
         open = true; op_alive = true; completions = 0; won = fwd_set = fwd_end = false; won_tid = -1;
-        src_kind = '?'; src_sub_last = cb_sub_last = false;
+        src_kind = '?'; src_sub_last = cb_sub_last = src_sub_seen = cb_sub_seen = false;
       } else if (rest == "!cons.next.dtor") {
         op_alive = false;
       } else if (starts_with(rest, "!cons.next ")) {
@@ -266,15 +267,22 @@ int main(int argc, char** argv) {
         } else return "ELECT: next() completed although nobody brought refCount_ to 0: " + e;
       } else if (starts_with(rest, "te.ref A.")) {
         // request_stop: fetch_add; old value 0 = the result was already delivered
-        int old = std::atoi(rest.c_str() + rest.find(' ', 7) + 1);
+        int old = std::atoi(rest.c_str() + rest.rfind(' ') + 1);
         if (old < 0 || old > 1) return "REF: refCount_ out of range at fetch_add: " + e;
-        if (old != 0) { won = true; won_tid = tid; }
+        if (won) return "REF: two callbacks on one next-op: " + e;
+        if (old != 0) { won = true; won_tid = tid; } else if (open) return "REF: fetch_add read 0 although next() has not completed: " + e;
       } else if (starts_with(rest, "te.ref U.")) {
-        int old = std::atoi(rest.c_str() + rest.find(' ', 7) + 1);
+        int old = std::atoi(rest.c_str() + rest.rfind(' ') + 1);
         if (old < 1 || old > 2) return "REF: refCount_ out of range at fetch_sub: " + e;
-        if (won && tid == won_tid && fwd_end && !cb_sub_last && src_kind != '?' && old == 1 && src_sub_last) return "REF: two last callers: " + e;
-        bool by_cb = won && tid == won_tid && fwd_end;
-        if (old == 1) { if (by_cb) cb_sub_last = true; else src_sub_last = true; }
+        // the callback's complete() is the first fetch_sub of its thread after it forwarded the stop request
+        bool by_cb = won && tid == won_tid && fwd_end && !cb_sub_seen;
+        if (by_cb) cb_sub_seen = true;
+        else if (src_kind == '?' || src_sub_seen) return "REF: complete() called by neither the source's completion nor the callback: " + e;
+        else src_sub_seen = true;
+        if (old == 1) {
+          if (cb_sub_last || src_sub_last) return "REF: two last callers: " + e;
+          if (by_cb) cb_sub_last = true; else src_sub_last = true;
+        }
       } else if (starts_with(rest, "te.src C.") && rest.find(" ok") != std::string::npos) {
         if (!won || tid != won_tid) return "FWD: stopSource_.request_stop() by a thread whose fetch_add saw 0: " + e;
         fwd_set = true;
